@@ -455,7 +455,10 @@ pub fn patch(
             .chain(&target.blending[1..])
             .enumerate()
         {
-            let base_grid_region = base_grid.regions_and_shifts()[idx].0;
+            // Patches are applied before the frame is upsampled; the buffer covers the downsampled
+            // region.
+            let (base_grid_region, base_grid_shift) = base_grid.regions_and_shifts()[idx];
+            let base_grid_region = base_grid_region.downsample_with_shift(base_grid_shift);
             let ref_grid_region = patch_ref_grid.regions_and_shifts()[idx].0;
 
             let target_patch_region = base_grid_region.intersection(Region {
